@@ -12,6 +12,7 @@ import Driver.C14
 import Driver.C01
 import Driver.C02
 import Driver.C10
+import Driver.C09
 open Driver
 
 def dispatch (id : String) (toks : List String) (impl : String) : Verdict :=
@@ -29,6 +30,7 @@ def dispatch (id : String) (toks : List String) (impl : String) : Verdict :=
   | "C01" => Driver.C01.handle toks impl
   | "C02" => Driver.C02.handle toks impl
   | "C10" => Driver.C10.handle toks impl
+  | "C09" => Driver.C09.handle toks impl
   | _ => badOp "unknown property"
 
 /-- Split `line` at the first occurrence of " => ". -/
